@@ -8,6 +8,10 @@ from .c09 import report
 from .ckpt_scen import BIG, base_scenario, problems, restore_op
 
 
+KF_POLICY = ("value-iteration-family solver: a checkpoint written during a second solve() call holds the policy of the first "
+             "call, but the restored solver has policy None")
+
+
 def scenarios(tier, rng):
     P = problems(rng)
     out = []
@@ -58,6 +62,13 @@ def scenarios(tier, rng):
                                      [{"ops": [{"op": "new"}, {"op": "solve", "k": k1}, {"op": "wait"}, {"op": "list", "dir": "@A"}]},
                                       {"ops": [{"op": "list", "dir": "@A"}, restore_op(full), {"op": "solve", "k": 1},
                                                {"op": "wait"}, {"op": "list", "dir": "@A"}]}]))
+    # a checkpoint written during a SECOND solve() call (the solver then holds the policy of the first call)
+    for kind, pname in (("VI", "forest"), ("RVI", "tab_unichain"), ("PVI", "forest12"), ("SAVI", "forest"), ("PI", "forest")):
+        pspec, full = P[pname]
+        out.append(base_scenario(f"{kind}-{pname}-saved-in-second-call", kind, pname, pspec, full, 1, 3, False,
+                                 [{"ops": [{"op": "new"}, {"op": "solve", "k": 3}, {"op": "solve", "k": 2}, {"op": "wait"},
+                                           {"op": "list", "dir": "@A"}]},
+                                  {"ops": [{"op": "list", "dir": "@A"}, restore_op(full), {"op": "list", "dir": "@A"}]}]))
     # error paths
     pspec, full = P["tabular"]
     out.append(base_scenario("VI-tabular-restore-without-config", "VI", "tabular", pspec, False, 1, 2, False,
@@ -94,13 +105,14 @@ def run(tier):
     for sc, tr, at, prop, clause, desc in report(rep, results, "C10"):
         if clause.startswith("KF:"):
             continue        # the C12 finding (restore of an older step into the same directory) is C12's
-        rep.violation(f"{prop} {clause} :: {desc}", {"scenario": sc, "clause": clause, "event_index": at,
+        key = f"{prop} {clause} :: {desc}"
+        if "policy field differs" in clause and sc["kind"] != "PI" and "second-call" in sc["name"]:
+            key = KF_POLICY
+        rep.violation(key, {"scenario": sc, "clause": clause, "event_index": at,
                                                         "event": tr["ev"][at - 1] if 0 < at <= len(tr["ev"]) else None})
     for sc, tr, _ in results[:4]:
         rep.sample({"scenario": sc["name"],
                     "restores": [{k: e[k] for k in ("e", "req", "iter", "vtag", "gtag", "htag", "ptag", "cfgeq", "nfreq", "nkeep", "ndir", "exc")}
                                  for e in tr["ev"] if e["e"].startswith("restore")]})
-    rep.extra["not_covered"] = ("VI-family policy stored by a second solve() call is not compared (the restored solver "
-                                "starts with policy None: low-impact deviation noted in DESIGN.md)")
     rep.assumptions = ["bitwise reproducibility across processes on this platform", "small parameterisations of the shipped problems"]
     return rep.finish()
